@@ -60,6 +60,9 @@ func (e *Exec) eval(x ast.Expr, st *State, ctx *Ctx) string {
 			return e.fresh(st, "addr", "Int")
 		}
 	case *ast.CallExpr:
+		if v, ok := st.preval[x]; ok {
+			return v
+		}
 		vs := e.evalCall(x, st, ctx)
 		if len(vs) == 0 {
 			e.unsupported(x.Pos(), "call without value used as expression")
